@@ -2,9 +2,14 @@ package ssaexec
 
 import (
 	"strconv"
+	"unicode"
+
+	"verif/engine/smt"
 )
 
+
 func registerMisc() {
+	regUnicode()
 	externals["strconv.FormatFloat"] = func(m *Machine, fr *frame, a []value) value {
 		f, ok := a[0].(float64)
 		if !ok {
@@ -19,4 +24,90 @@ func registerMisc() {
 		return tuple{int64(1700000000), int64(0), int64(1)}
 	}
 	externals["time.runtimeNano"] = func(m *Machine, fr *frame, a []value) value { return int64(1) }
+}
+
+// ---- unicode predicates: exact on Latin-1, congruent UF above (DESIGN §2.3 item 4) ----
+
+func unicodePred(name string, f func(rune) bool) externalFn {
+	// precompute the Latin-1 ranges where f holds
+	type rg struct{ lo, hi int }
+	var ranges []rg
+	for r := 0; r < 256; r++ {
+		if f(rune(r)) {
+			if n := len(ranges); n > 0 && ranges[n-1].hi == r-1 {
+				ranges[n-1].hi = r
+			} else {
+				ranges = append(ranges, rg{r, r})
+			}
+		}
+	}
+	return func(m *Machine, fr *frame, a []value) value {
+		if c, ok := a[0].(int64); ok {
+			return f(rune(c))
+		}
+		F := m.F()
+		r := a[0].(*Sym).T
+		cond := F.BoolConst(false)
+		for _, g := range ranges {
+			var c *smt.Term
+			if g.lo == g.hi {
+				c = F.Eq(r, F.BVConst(uint64(g.lo), 32))
+			} else {
+				c = F.And(F.BVSle(F.BVConst(uint64(g.lo), 32), r), F.BVSle(r, F.BVConst(uint64(g.hi), 32)))
+			}
+			cond = F.Or(cond, c)
+		}
+		latin := F.And(F.BVSle(F.BVConst(0, 32), r), F.BVSle(r, F.BVConst(255, 32)))
+		uf := F.UF("unicode_"+name, smt.Bool, r)
+		return fromTerm(F.Ite(latin, cond, uf), false)
+	}
+}
+
+func unicodeMap(name string, f func(rune) rune) externalFn {
+	return func(m *Machine, fr *frame, a []value) value {
+		if c, ok := a[0].(int64); ok {
+			return int64(f(rune(c)))
+		}
+		F := m.F()
+		r := a[0].(*Sym).T
+		// Latin-1: piecewise offset table
+		res := F.UF("unicode_"+name, smt.BV(32), r)
+		for x := 255; x >= 0; x-- {
+			y := f(rune(x))
+			if y == rune(x) {
+				continue
+			}
+			res = F.Ite(F.Eq(r, F.BVConst(uint64(x), 32)), F.BVConst(uint64(y), 32), res)
+		}
+		latinSame := F.And(F.BVSle(F.BVConst(0, 32), r), F.BVSle(r, F.BVConst(255, 32)))
+		// inside Latin-1 and not remapped -> identity
+		ident := F.BoolConst(true)
+		for x := 0; x < 256; x++ {
+			if f(rune(x)) != rune(x) {
+				ident = F.And(ident, F.Not(F.Eq(r, F.BVConst(uint64(x), 32))))
+			}
+		}
+		res = F.Ite(F.And(latinSame, ident), r, res)
+		return fromTerm(res, true)
+	}
+}
+
+func regUnicode() {
+	{
+		externals["unicode.IsLetter"] = unicodePred("IsLetter", unicode.IsLetter)
+		externals["unicode.IsDigit"] = unicodePred("IsDigit", unicode.IsDigit)
+		externals["unicode.IsNumber"] = unicodePred("IsNumber", unicode.IsNumber)
+		externals["unicode.IsSpace"] = unicodePred("IsSpace", unicode.IsSpace)
+		externals["unicode.IsUpper"] = unicodePred("IsUpper", unicode.IsUpper)
+		externals["unicode.IsLower"] = unicodePred("IsLower", unicode.IsLower)
+		externals["unicode.IsPunct"] = unicodePred("IsPunct", unicode.IsPunct)
+		externals["unicode.IsPrint"] = unicodePred("IsPrint", unicode.IsPrint)
+		externals["unicode.IsControl"] = unicodePred("IsControl", unicode.IsControl)
+		externals["unicode.IsGraphic"] = unicodePred("IsGraphic", unicode.IsGraphic)
+		externals["unicode.IsSymbol"] = unicodePred("IsSymbol", unicode.IsSymbol)
+		externals["unicode.IsTitle"] = unicodePred("IsTitle", unicode.IsTitle)
+		externals["unicode.ToLower"] = unicodeMap("ToLower", unicode.ToLower)
+		externals["unicode.ToUpper"] = unicodeMap("ToUpper", unicode.ToUpper)
+		externals["unicode.ToTitle"] = unicodeMap("ToTitle", unicode.ToTitle)
+	}
 }
